@@ -133,9 +133,12 @@ public:
         return i;
       }
     }
-    // (check_atom_id() returns the positive error code for an invalid number: test the range here, so that
-    //  an invalid atom number does not create a slot)
-    if (aid < 0 || aid >= natoms) { check_atom_id(atom_number); return COLVARS_INPUT_ERROR; }
+    // As in the NAMD and LAMMPS proxies: check_atom_id() raises the error and returns the (positive) error code,
+    // which is then used as an atom id; the library never checks init_atom()'s result (cvm::atom::atom), so
+    // returning an error code without a slot would make it index the atom arrays out of bounds.
+    aid = check_atom_id(atom_number);
+    if (aid < 0) return COLVARS_INPUT_ERROR;
+    if (aid >= natoms) aid = natoms - 1;
     int const index = add_atom_slot(aid);
     atoms_masses[index] = m[aid];
     atoms_charges[index] = q[aid];
@@ -264,8 +267,8 @@ public:
 
     for (int a = 0; a < natoms; a++) fapp[a] = cvm::rvector(0, 0, 0);
     for (size_t i = 0; i < atoms_ids.size(); i++) {
-      // several slots never map to the same id
-      fapp[atoms_ids[i]] = atoms_new_colvar_forces[i];
+      // (several slots can map to the same id after a rejected configuration with an invalid atom number)
+      fapp[atoms_ids[i]] += atoms_new_colvar_forces[i];
     }
     for (int a = 0; a < natoms; a++) prev_total[a] = fsys[a] + fapp[a];
     have_prev_total = true;
